@@ -86,11 +86,14 @@ func scenC10(e *Env) func() {
 			c.Reqs = append(c.Reqs, c10Req{
 				Proto:   Pick(e, "HTTP/1.1", "HTTP/1.1", "HTTP/1.1", "HTTP/1.0"),
 				ConnHdr: c10ConnValues[e.Int(len(c10ConnValues))],
-				Handler: Pick(e, "", "", "", "", "", "setclose", "header-close", "header-keepalive", "timeout-resp-close", "timeout-resp", "readbody", "bigbody"),
+				Handler: Pick(e, "", "", "", "", "", "setclose", "header-close", "header-keepalive", "timeout-resp-close", "timeout-resp", "readbody", "bigbody", "reset-resp", "error", "del-connection"),
 				Body:    Pick(e, "", "", "", "small", "big", "chunked"),
 			})
 			if r := &c.Reqs[len(c.Reqs)-1]; r.Handler == "bigbody" {
 				r.SlowMs = Pick(e, 0, 100, 1000)
+			}
+			if r := &c.Reqs[len(c.Reqs)-1]; r.Proto == "HTTP/1.0" && e.Chance(50) {
+				r.ConnHdr = Pick(e, "keep-alive", "Keep-Alive", "KEEP-ALIVE")
 			}
 		}
 		p.Conns = append(p.Conns, c)
@@ -136,6 +139,15 @@ func c10Server(e *Env, p *c10Plan) {
 			ctx.TimeoutErrorWithResponse(r)
 			fasthttp.ReleaseResponse(r)
 			return
+		case "reset-resp":
+			// the handler starts over: what the server put into the response before the
+			// handler ran is gone
+			ctx.Response.Reset()
+		case "error":
+			ctx.Error("ok", 200)
+			return
+		case "del-connection":
+			ctx.Response.Header.Del("Connection")
 		case "readbody":
 			ctx.PostBody()
 		case "bigbody":
